@@ -36,6 +36,11 @@ pub struct TlsMaterial {
     pub server_noauth: Arc<rustls::ServerConfig>,
     pub client_cert_der: Vec<u8>,
     pub client_key_der: Vec<u8>,
+    /// client certificates optional; trusts only the root of `client_chain_der`'s chain
+    pub server_chain_optional: Arc<rustls::ServerConfig>,
+    /// what a client with an issued certificate presents: [its own certificate, the intermediate CA]
+    pub client_chain_der: Vec<Vec<u8>>,
+    pub client_chain_key_der: Vec<u8>,
 }
 
 impl TlsMaterial {
@@ -60,7 +65,49 @@ impl TlsMaterial {
             let cfg = b.with_single_cert(vec![CertificateDer::from(s_der.clone())], PrivateKeyDer::Pkcs8(s_key.clone().into())).map_err(|e| e.to_string())?;
             Ok(Arc::new(cfg))
         };
-        Ok(TlsMaterial { server_optional: mk(0)?, server_required: mk(1)?, server_noauth: mk(2)?, client_cert_der: c_der, client_key_der: c_key })
+        // root CA -> intermediate CA -> client certificate; the server trusts the root only
+        let ca = |name: &str| -> Result<rcgen::Certificate, String> {
+            let mut p = rcgen::CertificateParams::new(Vec::<String>::new());
+            p.is_ca = rcgen::IsCa::Ca(rcgen::BasicConstraints::Unconstrained);
+            p.distinguished_name.push(rcgen::DnType::CommonName, name);
+            p.key_usages = vec![rcgen::KeyUsagePurpose::KeyCertSign, rcgen::KeyUsagePurpose::DigitalSignature, rcgen::KeyUsagePurpose::CrlSign];
+            rcgen::Certificate::from_params(p).map_err(|e| e.to_string())
+        };
+        let root = ca("vmon root CA")?;
+        let inter = ca("vmon intermediate CA")?;
+        let mut lp = rcgen::CertificateParams::new(vec!["vmon-issued-client".to_string()]);
+        lp.distinguished_name.push(rcgen::DnType::CommonName, "vmon issued client");
+        lp.extended_key_usages = vec![rcgen::ExtendedKeyUsagePurpose::ClientAuth];
+        let leaf = rcgen::Certificate::from_params(lp).map_err(|e| e.to_string())?;
+        let root_der = root.serialize_der().map_err(|e| e.to_string())?;
+        let inter_der = inter.serialize_der_with_signer(&root).map_err(|e| e.to_string())?;
+        let leaf_der = leaf.serialize_der_with_signer(&inter).map_err(|e| e.to_string())?;
+        let chain_cfg = {
+            let mut roots = rustls::RootCertStore::empty();
+            roots.add(CertificateDer::from(root_der)).map_err(|e| e.to_string())?;
+            let v = rustls::server::WebPkiClientVerifier::builder(Arc::new(roots)).allow_unauthenticated().build().map_err(|e| e.to_string())?;
+            let cfg = rustls::ServerConfig::builder().with_client_cert_verifier(v).with_single_cert(vec![CertificateDer::from(s_der.clone())], PrivateKeyDer::Pkcs8(s_key.clone().into())).map_err(|e| e.to_string())?;
+            Arc::new(cfg)
+        };
+        Ok(TlsMaterial {
+            server_optional: mk(0)?,
+            server_required: mk(1)?,
+            server_noauth: mk(2)?,
+            client_cert_der: c_der,
+            client_key_der: c_key,
+            server_chain_optional: chain_cfg,
+            client_chain_der: vec![leaf_der, inter_der],
+            client_chain_key_der: leaf.serialize_private_key_der(),
+        })
+    }
+
+    /// A client that presents its issued certificate together with the intermediate CA.
+    pub fn client_config_chain(&self, tls13: bool) -> Result<Arc<rustls::ClientConfig>, String> {
+        let versions: &[&rustls::SupportedProtocolVersion] = if tls13 { &[&rustls::version::TLS13] } else { &[&rustls::version::TLS12] };
+        let b = rustls::ClientConfig::builder_with_protocol_versions(versions).dangerous().with_custom_certificate_verifier(Arc::new(NoVerify));
+        let chain: Vec<CertificateDer<'static>> = self.client_chain_der.iter().map(|d| CertificateDer::from(d.clone())).collect();
+        let cfg = b.with_client_auth_cert(chain, PrivateKeyDer::Pkcs8(self.client_chain_key_der.clone().into())).map_err(|e| e.to_string())?;
+        Ok(Arc::new(cfg))
     }
 
     pub fn client_config(&self, tls13: bool, with_cert: bool) -> Result<Arc<rustls::ClientConfig>, String> {
